@@ -523,6 +523,12 @@ func evalClient(tb ev.TB, s *clientSetup, c clientCase, base *clientBase, seq in
 		for _, ex := range s.cl.Journal() {
 			j += fmt.Sprintf("  seq%d conn%d b%d %s v%d %s %s cut@%d/%d\n", ex.Seq, ex.ConnID, ex.BrokerID, ex.ApiName, ex.Version, ex.Tag, ex.Outcome, ex.CutAt, ex.RespBytes)
 		}
+		if err != nil {
+			// the call failed before it sent the target request (a dial or an earlier exchange timed out on a saturated
+			// machine): nothing was cut, nothing to judge
+			ev.Inconclusive("target_request_not_sent")
+			return
+		}
 		tb.Fatalf("harness: Client.%s did not cause %s #%d (handshake=%v) case %+v err=%v took=%v\n%s", c.Op, apiName(c.TKey), c.TIdx, c.Shake, c, err, out.Took, j)
 	}
 	final := !c.Shake && c.TKey == op.key
